@@ -908,6 +908,14 @@ impl Compiler {
 
         // Catch handler
         let catch_start = self.builder.current_offset();
+        // The VM removes this statement's handler before the catch body runs; it stays
+        // (as a finally-only handler) only if there is a finally block. Loops and labels
+        // inside the body must record the depth the try stack really has there, or their
+        // break / continue skip the finally blocks of try statements nested in them.
+        let depth_in_try = self.try_depth;
+        if try_stmt.finalizer.is_none() {
+            self.try_depth = depth_in_try - 1;
+        }
         if let Some(handler) = &try_stmt.handler {
             self.builder.set_span(handler.span);
 
@@ -947,7 +955,8 @@ impl Compiler {
         // Jump to finally (if exists) or end
         let jump_after_catch = self.builder.emit_jump();
 
-        // Finally handler
+        // Finally handler: the handler is gone while the finally block runs
+        self.try_depth = depth_in_try - 1;
         let finally_start = self.builder.current_offset();
         if let Some(finalizer) = &try_stmt.finalizer {
             self.builder.set_span(finalizer.span);
@@ -993,8 +1002,6 @@ impl Compiler {
                 0
             },
         );
-
-        self.try_depth -= 1;
 
         Ok(())
     }
